@@ -4,6 +4,7 @@ CONSTANTS
   Rounds = 2
   MaxEdits = 1
   Twin = FALSE
+  Modes = {"inc", "incskip", "force", "forceskip"}
   Emit = FALSE
 INVARIANT IncEqualsFull
 VIEW View
